@@ -152,7 +152,7 @@ PROPS = {
         "statement": "Same CFI, any presentation.",
     },
     "C02": {
-        "lean": ["FH.Props.C02"],
+        "lean": ["FH.Props.C02", "FH.Props.C02A64"],
         "engines": ["macho", "ana", "asm"],
         "level_text": "Theorems (x86-64, for every choice and order of registers, legacy and REX encodings): stopped anywhere in `pop...; ret` the analysed rule restores exactly the rsp/rbp/return address the CPU will have (machine model runPops); stopped after any prefix of the prologue's pushes the rule finds the return address above them; after `push rbp; mov rbp, rsp; push...` it is the frame pointer rule; frameless opcodes give rules that execute the documented layout (rbp slot by position: C02_x64_rbp_position_is_push_index, for rbp pushed at any index of the register list); dispatch: __stubs/__stub_helper precedence and first-frame-only, function starts are leaves, function bytes are exactly the function's slice of the text; __stub_helper tables equal the documented dyld_stub_binder layout on both architectures; arm64 body rules. arm64 prologue/epilogue word scans: partial - modelled (FH/AnaA64.lean) and tied by correspondence and ground truth, not proved sound against a machine model. Tie: ana (hooks, byte for byte) and macho (whole modules, ground-truth walks).",
         "level_note": _NOTE + " macho-unwind-info's parser (UnwindInfo::lookup, opcode field extraction) is outside the model; the model takes the parsed opcode, recomputed by the harness with the real parser, and the writer exercises regular and compressed pages.",
